@@ -71,6 +71,11 @@ debug-assertions = true
 opt-level = 2
 overflow-checks = true
 debug-assertions = true
+
+# the generated program itself is compiled without optimisation: it is large and rebuilt on every change of /repo
+[profile.dev.package.vsubjects]
+opt-level = 0
+debug = 0
 "#;
 
 /// Write the subjects crate for the given universes. `variant`: "" (default features) or "-nommap".
@@ -191,7 +196,9 @@ pub fn run_bin(label: &str, prop: &str, opts: &Opts, extra: &[String]) -> Result
     let mut c = Command::new(bin_path(label));
     c.arg("--universe").arg(universe_json_path(label)).arg("--prop").arg(prop).arg("--tier").arg(&opts.tier).arg("--seed").arg(opts.seed.to_string()).arg("--out").arg(&out);
     c.arg("--known").arg(format!("{}/known_findings.json", crate::VERIF));
-    c.arg("--threads").arg("16");
+    if !extra.iter().any(|e| e == "--threads") {
+        c.arg("--threads").arg("16");
+    }
     for e in extra {
         c.arg(e);
     }
